@@ -908,3 +908,55 @@ func init() {
 func floatBits(x float64) uint64 { return mathFloat64bits(x) }
 
 func mathFloat64bits(x float64) uint64 { return math.Float64bits(x) }
+
+// ---------- gonum mat.Dense (C04: ToMat64 / FromMat64) ----------
+// A *mat.Dense is modelled as (rows, cols, data slice) with row-major data of stride cols, as mat.NewDense documents.
+
+type matModel struct {
+	r, c int
+	data Slice
+}
+
+func init() {
+	prev := registerIOIntrinsics
+	registerIOIntrinsics = func(ex *Exec, I map[string]intrinsic) {
+		prev(ex, I)
+		M := "gonum.org/v1/gonum/mat."
+		f64 := types.Typ[types.Float64]
+		I[M+"NewDense"] = func(ex *Exec, fr *frame, a []V) V {
+			r, c := int(ex.cint(a[0], "mat rows")), int(ex.cint(a[1], "mat cols"))
+			if r <= 0 || c <= 0 {
+				ex.throw("mat: zero length in matrix dimension")
+			}
+			d, _ := a[2].(Slice)
+			if d.B == nil {
+				d = ex.mkSlice(ex.newBuf(f64, r*c), r*c)
+			} else if int(ex.cint(d.Len, "mat data length")) != r*c {
+				ex.throw("mat: dimension mismatch")
+			}
+			p := new(V)
+			*p = NativeV{X: &matModel{r: r, c: c, data: d}}
+			return Ptr{S: p}
+		}
+		I["(*"+M+"Dense).Dims"] = func(ex *Exec, fr *frame, a []V) V {
+			m := ex.nativeOf(a[0]).(*matModel)
+			return Tuple{ex.c64(int64(m.r)), ex.c64(int64(m.c))}
+		}
+		I["(*"+M+"Dense).At"] = func(ex *Exec, fr *frame, a []V) V {
+			m := ex.nativeOf(a[0]).(*matModel)
+			i, j := int(ex.cint(a[1], "mat row")), int(ex.cint(a[2], "mat col"))
+			if i < 0 || i >= m.r {
+				ex.throw("mat: row index out of range")
+			}
+			if j < 0 || j >= m.c {
+				ex.throw("mat: column index out of range")
+			}
+			return ex.load(ex.elemPtr(m.data.B, m.data.Off, ex.c64(int64(i*m.c+j)), f64), f64)
+		}
+		I["(*"+M+"Dense).RawMatrix"] = func(ex *Exec, fr *frame, a []V) V {
+			m := ex.nativeOf(a[0]).(*matModel)
+			// blas64.General{Rows, Cols int; Data []float64; Stride int}
+			return Struct{ex.c64(int64(m.r)), ex.c64(int64(m.c)), m.data, ex.c64(int64(m.c))}
+		}
+	}
+}
